@@ -40,6 +40,18 @@ def evaluateSkeleton : String :=
     "(block (range v9 v10 (call (. v1 EvaluateTargets) v6 ...) (block (if _ (!= (. v10 Error) nil) (block (typeswitch _ _ (case (UnknownTargetError) (call (. (. v2 events) TargetFailed) v3 (call (. fmt Errorf) \"missing dependency: %w\" (. v10 Error)))) (case ((. runner CyclicDependencyError)) (call (. (. v2 events) TargetFailed) v3 v11))) (return (call (. fmt Errorf) \"dependency %v failed\" (index v6 v9)))) _))) (:= (v15 v16 v17 v11) ((call (. (. v0 target) upToDate)))) (if _ (!= v11 nil) (block (call (. (. v2 events) TargetFailed) v3 v11) (return v11)) _) (if _ (&& (&& (&& (u! (. v2 always)) v5) v15) (u! (. v4 Rerun))) (block (call (. (. v2 events) TargetUpToDate) v3) (return nil)) _) (switch _ _ (case ((u! v15))) (case ((. v2 always))) (case ((u! v5))) (case ((. v4 Rerun)))) (call (. (. v2 even",
     "ts) TargetEvaluating) v3 v16 v17) (if _ (. v2 dryrun) (block (call (. (. v2 events) TargetSucceeded) v3 true) (return nil)) _) (if _ (call IsTarget v3) (block (if (:= (v11) ((call (. v2 saveTargetInfo) v3 v18))) (!= v11 nil) (block (call (. (. v2 events) TargetFailed) v3 v11) (return v11)) _)) _) (:= (v19 v20 v11) ((call (. (. v0 target) evaluate)))) (if _ (!= v11 nil) (block (call (. (. v2 events) TargetFailed) v3 v11) (call (. v2 saveTargetInfo) v3 (lit targetInfo (kv Doc (call (. (. v0 target) Doc))) (kv Dependencies v7) (kv Rerun true) (kv Runs (. v4 Runs)))) (return v11)) _) (= (v11) ((call (. v2 saveTargetInfo) v3 v21))) (if _ (!= v11 nil) (block (call (. (. v2 events) TargetFailed) v3 v11) (return v11)) _) (call (. (. v2 events) TargetSucceeded) v3 v20) (return nil))"]
 
+def depErrorClassification : List String :=
+  ["typeswitch dep.Error.(type): UnknownTargetError, runner.CyclicDependencyError"]
+
+def unknownTargetReturns : List String :=
+  ["UnknownTargetError", "UnknownTargetError", "UnknownTargetError"]
+
+def loadTargetBody : String :=
+  "(block (:= (v2 v3) ((call (. label Parse) v1))) (if _ (!= v3 nil) (block (return nil v3)) _) (call (. (. v0 m) Lock)) (defer (call (. (. v0 m) Unlock))) (:= (v4 v5) ((index (. v0 targets) (call (. v2 String))))) (if _ (u! v5) (block (return nil (call (. v0 unknownTarget) (call (. v2 String))))) _) (return v4 nil))"
+
+def runOptionsApplyBody : String :=
+  "(block (if _ (== v0 nil) (block (= ((. v1 always)) (false)) (= ((. v1 dryrun)) (false)) (return)) _) (= ((. v1 always)) ((. v0 Always))) (= ((. v1 dryrun)) ((. v0 DryRun))))"
+
 def runBody : String :=
   "(block (call (. v2 apply) v0) (:= (v3) ((call (. runner Run) v0 (call (. v1 String))))) (call (. (. v0 events) RunDone) v3) (return v3))"
 
